@@ -497,6 +497,120 @@ def do_CT(spec):
     return res
 
 
+# ---- GC: a collection triggered from a finalizer while a CTrait / HasTraits object is being deallocated
+
+GC_SCENARIOS = ["ctrait-default", "ctrait-default-callable-args", "ctrait-validate-closure",
+                "ctrait-post-setattr-closure", "ctrait-handler", "ctrait-dict", "ctrait-notifiers",
+                "ctrait-delegate-clone", "itrait-handler-closure", "itrait-observe-closure", "object-attribute",
+                "object-anytrait-closure", "object-list-value", "object-instance-chain"]
+
+
+def do_GC(spec):
+    """The object under test holds the LAST reference to a Victim whose __del__ runs gc.collect().
+    mode `saveall`: the collection runs under gc.DEBUG_SAVEALL and whatever the collector considers unreachable
+    is inspected: a CTrait / HasTraits object there is an object in the middle of its deallocation that the
+    collector was handed (it would clear and free it a second time) - the answer is written and the process
+    leaves at once (its state is no longer trustworthy).  mode `plain`: an ordinary collection (for runs under
+    PYTHONMALLOC=malloc / ASan, where the double free is a crash)."""
+    import gc
+    import traits.api as T
+    from traits.constants import DefaultValue
+    from traits.ctrait import CTrait
+    scenario, mode = spec["scenario"], spec.get("mode", "saveall")
+    seen = []
+
+    class Victim(object):
+        def __del__(self):
+            if mode == "plain":
+                gc.collect()
+                gc.collect()
+                seen.append(0)
+                return
+            gc.set_debug(gc.DEBUG_SAVEALL)
+            try:
+                gc.collect()
+            finally:
+                gc.set_debug(0)
+            dying = [type(o).__name__ for o in gc.garbage if isinstance(o, (CTrait, T.HasTraits))]
+            seen.append(len(gc.garbage))
+            if dying:
+                sys.stdout.write(json.dumps({"gc_violation": dying[:5], "scenario": scenario}) + "\n")
+                sys.stdout.flush()
+                os._exit(3)
+            del gc.garbage[:]
+
+    class A(T.HasTraits):
+        x = T.Int()
+        v = T.Any()
+        l = T.List()
+        nxt = T.Instance(T.HasTraits)
+
+    def closure():
+        victim = Victim()
+
+        def handler(*args):
+            return victim
+        return handler
+
+    def run():
+        if scenario == "ctrait-default":
+            ct = CTrait(0)
+            ct.set_default_value(DefaultValue.constant, Victim())
+        elif scenario == "ctrait-default-callable-args":
+            ct = CTrait(0)
+            ct.set_default_value(DefaultValue.callable_and_args, (len, ((Victim(),),), None))
+        elif scenario == "ctrait-validate-closure":
+            ct = CTrait(0)
+            ct.set_validate(closure())
+        elif scenario == "ctrait-post-setattr-closure":
+            ct = CTrait(0)
+            ct.post_setattr = closure()
+        elif scenario == "ctrait-handler":
+            ct = CTrait(0)
+            ct.handler = Victim()
+        elif scenario == "ctrait-dict":
+            ct = CTrait(0)
+            ct.__dict__ = {"meta": Victim()}
+        elif scenario == "ctrait-notifiers":
+            ct = CTrait(0)
+            ct._notifiers(True).append(closure())
+        elif scenario == "ctrait-delegate-clone":
+            src = T.Any(Victim()).as_ctrait()
+            ct = CTrait(0)
+            ct.clone(src)
+            del src
+        elif scenario == "itrait-handler-closure":
+            ct = A()
+            ct.on_trait_change(closure(), "x")
+            ct.x = 3
+        elif scenario == "itrait-observe-closure":
+            ct = A()
+            ct.observe(closure(), "x")
+            ct.x = 3
+        elif scenario == "object-attribute":
+            ct = A()
+            ct.v = Victim()
+        elif scenario == "object-anytrait-closure":
+            ct = A()
+            ct.on_trait_change(closure())
+            ct.x = 1
+        elif scenario == "object-list-value":
+            ct = A()
+            ct.l = [Victim()]
+        elif scenario == "object-instance-chain":
+            ct = A()
+            ct.nxt = A()
+            ct.nxt.v = Victim()
+        else:
+            raise ValueError(scenario)
+        gc.collect()
+        del ct
+    gc.collect()
+    run()
+    gc.collect()
+    return {"ok": True, "finalizer_runs": len(seen)}
+
+
 # ---- PROG: generated API programs (see props/c18lib.py for the generator)
 
 def do_PROG(prog):
@@ -526,6 +640,8 @@ def main():
                 ans = do_CTINFO(req["spec"])
             elif req["k"] == "PROG":
                 ans = do_PROG(req["prog"])
+            elif req["k"] == "GC":
+                ans = do_GC(req["spec"])
             else:
                 ans = {"error": "unknown request"}
         except Exception as e:  # interpreter bug or unexpected behaviour: report, keep serving
